@@ -24,6 +24,8 @@ REQUIRED = [
     # DetShapeHolds discharged: hypothesis-free forms
     "det_shape_holds", "tableau_contract", "reachable_sound_generated", "measure_deterministic_sound",
     "stabHyps_generated",
+    # equal states => identical tableau, all n
+    "reachable_canonical", "equal_states_identical_tableau", "history_independent",
     # finite, kernel-checked (n <= 2)
     "enum_card", "enum_is_closure", "exhaustive_gates_n2", "exhaustive_measure_n2", "exhaustive_reset_partial_n2",
     "exhaustive_canonical_n2", "equal_states_identical_tableau_n2", "history_independent_n2",
@@ -181,8 +183,9 @@ def run(ctx):
         "DetShapeHolds is PROVED (det_shape_holds: reduced echelon shape of normalize + ghost destabilizers + a pigeonhole counting "
         "argument over ZMod 2); the *_partial theorems are kept as the relative forms",
         "stabHyps_generated still takes `hpos` (positivity of the squared norm over Q(zeta_8)) as a parameter: a property of the amplitude type",
-        "NOT proved for general n: normalize is idempotent / its output is the unique canonical form (equal states => identical tableau "
-        "is FINITE, n <= 2, plus correspondence)",
+        "equal_states_identical_tableau / history_independent are proved for ALL n (Canon = full post-condition of normalize, uniqueness "
+        "of the reduced echelon basis, destabilizers); the _n2 versions are the older kernel-checked finite forms",
+        "NOT proved: idempotence of normalize as a separate statement (it follows for reachable tableaux from uniqueness, not stated)",
         "u64 words are modelled as Nat (frame laws bits_get_set / bits_sign_get_set do not need the 64-bit bound); Vec<u64> indexing as list indexing; "
         "that the packed structure and the row model agree on whole tableaux is checked by (A) on the `words` requests (up to 70 qubits), not proved",
     ]
